@@ -1,6 +1,6 @@
 (* ModelProofs.v — universal theorems about the generator model (every description, every size):
    what `run sp d = Ok n` implies for the emitted netlist n, for ANY shortest-path oracle sp. *)
-From FV Require Import Base AddrRange RouteMap RouteMapProofs Graph Desc Build Netlist Compile Routing Emit
+From FV Require Import Base AddrRange AddrRangeProofs RouteMap RouteMapProofs Graph Desc Build Netlist Compile Routing Emit
      Hw Check CheckProofs ModelBase.
 From Coq Require Import ZifyBool.
 
@@ -72,8 +72,7 @@ Proof.
   unfold compile_ni. destruct (find_ep d (n_desc ni)) as [e|]; [|discriminate].
   intros H. inv_bind H. unfold uid_of in E.
   destruct (index_of _ _ _) as [i|]; [|discriminate]. inversion E; subst.
-  destruct (link_edges_from g (n_name ni)); [discriminate|]. destruct (link_edges_to g (n_name ni)); [discriminate|].
-  cbn [bind] in H. inv_bind H. inversion H; subst; cbn. lia.
+  inversion H; subst; cbn. lia.
 Qed.
 
 Lemma fill_free_length slots ls : length (fst (fill_free slots ls)) = length slots.
@@ -225,4 +224,253 @@ Proof.
   destruct (find (fun p => str_eqb (fst p) (cr_name cr)) (ri_tables ri)) as [[nm rules]|] eqn:Ef; [split; reflexivity|].
   exfalso. pose proof (find_none _ _ Ef _ Hein) as Hn. cbn in Hn.
   assert (str_eqb (cr_name cr) (cr_name cr) = true) by (apply str_eqb_eq; reflexivity). congruence.
+Qed.
+
+(* ------------------------------------------------------------------ C01 on the model *)
+Lemma pairwise_map {S T} (R : T -> T -> Prop) (f : S -> T) l :
+  pairwise R (map f l) <-> pairwise (fun x y => R (f x) (f y)) l.
+Proof.
+  induction l as [|x xs IH]; cbn [map pairwise]; [tauto|]. rewrite IH, Forall_map. tauto.
+Qed.
+
+Lemma at_most_one {T} (lo hi : T -> Z) (l : list T) a :
+  pairwise (fun x y => hi x <= lo y \/ hi y <= lo x) l ->
+  Nat.le (length (filter (fun x => (lo x <=? a) && (a <? hi x)) l)) 1.
+Proof.
+  induction l as [|x xs IH]; cbn [pairwise filter length]; [lia|].
+  intros (H1 & H2). specialize (IH H2). destruct ((lo x <=? a) && (a <? hi x)) eqn:E; [|exact IH].
+  cbn [length]. assert (Hn : filter (fun y => (lo y <=? a) && (a <? hi y)) xs = []).
+  { destruct (filter _ xs) as [|y ys] eqn:F; [reflexivity|exfalso].
+    assert (Hy : In y (filter (fun y => (lo y <=? a) && (a <? hi y)) xs)) by (rewrite F; cbn; auto).
+    apply filter_In in Hy. destruct Hy as (Hy & Hm). rewrite Forall_forall in H1. specialize (H1 y Hy). lia. }
+  rewrite Hn. cbn. lia.
+Qed.
+
+Definition range_wf (r : range) : Prop := r_start r < r_end r /\ r_end r - r_start r = r_size r.
+
+Lemma range_of_spec_wf s r : range_of_spec s = Ok r -> range_wf r.
+Proof.
+  unfold range_of_spec. intros H. apply mk_range_wf in H. unfold range_wf. lia.
+Qed.
+Lemma set_idx_wf r k r' : range_wf r -> set_idx r k = Ok r' -> range_wf r'.
+Proof.
+  unfold set_idx, range_wf. destruct (r_base r); [|discriminate]. intros Hw H. inversion H; subst; cbn. lia.
+Qed.
+
+Lemma mapM_Forall_out {A B} (P : B -> Prop) (f : A -> res B) l l' :
+  (forall x y, In x l -> f x = Ok y -> P y) -> mapM f l = Ok l' -> Forall P l'.
+Proof.
+  intros Hp H. apply Forall_forall. intros y Hy. destruct (mapM_In _ _ _ _ H Hy) as (x & Hx & E). eauto.
+Qed.
+
+Lemma compile_ni_ranges d g ni x : compile_ni d g ni = Ok x ->
+  Forall range_wf (cn_ranges x) /\ length (cn_ranges x) = length (ep_ranges (cn_ep x)).
+Proof.
+  unfold compile_ni. destruct (find_ep d (n_desc ni)) as [e|]; [|discriminate].
+  intros H. inv_bind H.
+  assert (W0 : Forall range_wf a1) by (eapply mapM_Forall_out; [|exact E1]; intros s r _ Hr; eapply range_of_spec_wf; eauto).
+  assert (L0 : length a1 = length (ep_ranges e)) by (eapply mapM_length; eauto).
+  assert (W : Forall range_wf a2 /\ length a2 = length (ep_ranges e)).
+  { destruct (ep_array e) as [[|p [|q [|? ?]]]|]; try discriminate.
+    - destruct (n_arr ni) as [[|i [|? ?]]|]; try discriminate. destruct (ep_is_sbr e).
+      + split; [|rewrite (mapM_length _ _ _ E2); exact L0]. eapply mapM_Forall_out; [|exact E2].
+        intros r r' Hr Hs. cbv beta in Hs. rewrite Forall_forall in W0. eapply set_idx_wf; [apply W0; exact Hr|exact Hs].
+      + inversion E2; subst. auto.
+    - destruct (n_arr ni) as [[|i [|j [|? ?]]]|]; try discriminate. destruct (ep_is_sbr e).
+      + split; [|rewrite (mapM_length _ _ _ E2); exact L0]. eapply mapM_Forall_out; [|exact E2].
+        intros r r' Hr Hs. cbv beta in Hs. rewrite Forall_forall in W0. eapply set_idx_wf; [apply W0; exact Hr|exact Hs].
+      + inversion E2; subst. auto.
+    - inversion E2; subst. auto. }
+  inversion H; subst; cbn. exact W.
+Qed.
+
+(* the rule gen_sam emits for range r of interface x *)
+Lemma gen_sam_In c off x r :
+  In x (c_nis c) -> ni_sbr x = true -> In r (cn_ranges x) -> length (cn_ranges x) = length (ep_ranges (cn_ep x)) ->
+  exists nm, In (id_sub (cn_id x) off, (r, nm)) (gen_sam c off).
+Proof.
+  intros Hx Hs Hr Hl. unfold gen_sam.
+  assert (Hz : exists s, In (r, s) (zip (cn_ranges x) (ep_ranges (cn_ep x)))).
+  { revert Hr Hl. generalize (ep_ranges (cn_ep x)). induction (cn_ranges x) as [|r0 rs IH]; intros sp [] Hl; try discriminate.
+    - destruct sp as [|s0 ss]; [discriminate|]. subst. exists s0. cbn. auto.
+    - destruct sp as [|s0 ss]; [discriminate|]. cbn in Hl. destruct (IH ss H ltac:(lia)) as (s & Hin). exists s. cbn. auto. }
+  destruct Hz as (s & Hz).
+  assert (He : exists i, In (i, (r, s)) (enumerate (zip (cn_ranges x) (ep_ranges (cn_ep x))))).
+  { unfold enumerate. generalize 0%nat. induction (zip (cn_ranges x) (ep_ranges (cn_ep x))) as [|p ps IH]; intros k; [destruct Hz|].
+    destruct Hz as [->|Hz]; [exists k; cbn; auto|]. destruct (IH Hz (S k)) as (i & Hi). exists i. cbn. auto. }
+  destruct He as (i & He). eexists. apply in_flat_map. exists x. split.
+  - apply in_rev. rewrite rev_involutive. apply filter_In. auto.
+  - apply in_map_iff. exists (i, (r, s)). split; [reflexivity|exact He].
+Qed.
+
+Lemma gen_sam_inv c off e : In e (gen_sam c off) ->
+  exists x, In x (c_nis c) /\ ni_sbr x = true /\ In (fst (snd e)) (cn_ranges x) /\ fst e = id_sub (cn_id x) off.
+Proof.
+  unfold gen_sam. intros H. apply in_flat_map in H. destruct H as (x & Hx & He).
+  apply in_rev in Hx. apply filter_In in Hx. destruct Hx as (Hx & Hs).
+  apply in_map_iff in He. destruct He as ([i [r s]] & <- & Hi). cbn [fst snd].
+  exists x. repeat split; auto.
+  unfold enumerate in Hi. revert Hi. generalize 0%nat.
+  assert (G : forall l k, In (i, (r, s)) (enumerate_from k l) -> In (r, s) l).
+  { induction l as [|p ps IH]; intros k; cbn; [tauto|]. intros [E|H]; [inversion E; auto|right; eapply IH; eauto]. }
+  intros k Hi. apply G in Hi. clear G. revert Hi. generalize (ep_ranges (cn_ep x)).
+  induction (cn_ranges x) as [|r0 rs IH]; intros sp Hi; [destruct Hi|]. destruct sp as [|s0 ss]; [destruct Hi|].
+  cbn in Hi. destruct Hi as [E|Hi]; [inversion E; cbn; auto|right; eapply IH; eauto].
+Qed.
+
+Definition C01_model_on (c : compiled) (ri : rinfo) (n : netlist) : Prop :=
+  (* every address of every range of every subordinate interface decodes to exactly one rule, whose
+     destination is the identity emitted for that interface *)
+  (forall x r a, In x (c_nis c) -> ni_sbr x = true -> In r (cn_ranges x) -> r_start r <= a < r_end r ->
+     exists sr, sam_decode n a = [sr] /\ sr_idx sr = id_sub (cn_id x) (ri_offset ri) /\
+                exists y, In y (n_nis n) /\ ni_name y = cn_name x /\ Netlist.ni_id y = sr_idx sr) /\
+  (* addresses outside every such range match no rule *)
+  (forall a, (forall x r, In x (c_nis c) -> ni_sbr x = true -> In r (cn_ranges x) -> ~ (r_start r <= a < r_end r)) ->
+     sam_decode n a = []).
+
+Lemma pairwise_impl {T} (R R' : T -> T -> Prop) l :
+  (forall x y, R x y -> R' x y) -> pairwise R l -> pairwise R' l.
+Proof.
+  intros Hi. induction l as [|x xs IH]; cbn [pairwise]; [tauto|]. intros (H1 & H2). split; auto.
+  eapply Forall_impl; [|exact H1]. intros y; apply Hi.
+Qed.
+
+Lemma emit_sam_rule_bounds aw e :
+  sr_start (emit_sam_rule aw e) = r_start (fst (snd e)) /\ sr_end (emit_sam_rule aw e) = r_end (fst (snd e)) /\
+  sr_idx (emit_sam_rule aw e) = fst e.
+Proof. destruct e as [dst [r nm]]. cbn. auto. Qed.
+
+Lemma decode_model_unique aw (sam : list (idv * (range * string))) a :
+  pairwise (fun e f => r_end (fst (snd e)) <= r_start (fst (snd f)) \/ r_end (fst (snd f)) <= r_start (fst (snd e))) sam ->
+  Nat.le (length (filter (fun r => sam_matches r a) (map (emit_sam_rule aw) sam))) 1.
+Proof.
+  intros Hd. unfold sam_matches. apply (at_most_one sr_start sr_end). apply pairwise_map.
+  eapply pairwise_impl; [|exact Hd]. intros x y H.
+  destruct (emit_sam_rule_bounds aw x) as (-> & -> & _). destruct (emit_sam_rule_bounds aw y) as (-> & -> & _). exact H.
+Qed.
+
+Theorem C01_model sp d g c ri n :
+  build d = Ok g -> compile d g = Ok c -> gen_routing_info sp c = Ok ri -> emit c ri = Ok n -> C01_model_on c ri n.
+Proof.
+  intros Hb Hc Hr He.
+  destruct (emit_inv _ _ _ He) as (Hne & axi & rts & Ha & Hrts & ->).
+  destruct (gri_inv _ _ _ Hr) as (Hnum & Hpos & Hidb & Htab & Hrou & Hsam & Hov).
+  destruct (compile_inv _ _ _ Hc) as (dirs & nis & crts & rids & Hnis & Hcrts & Hceq).
+  assert (Hni : forall x, In x (c_nis c) ->
+            Forall range_wf (cn_ranges x) /\ length (cn_ranges x) = length (ep_ranges (cn_ep x))).
+  { intros x Hx. rewrite Hceq in Hx. cbn [c_nis] in Hx. destruct (mapM_In _ _ _ _ Hnis Hx) as (nd & _ & E).
+    eapply compile_ni_ranges; eauto. }
+  (* all emitted ranges are non-empty, hence the overlap check means pairwise disjointness *)
+  set (mk := fun e : idv * (range * string) =>
+               {| dest := 0; st := r_start (fst (snd e)); en := r_end (fst (snd e)); sz := r_size (fst (snd e)) |}) in *.
+  assert (Hwf : Forall wf (map mk (ri_sam ri))).
+  { apply Forall_forall. intros q Hq. apply in_map_iff in Hq. destruct Hq as (e & <- & Hein).
+    rewrite Hsam in Hein. destruct (gen_sam_inv _ _ _ Hein) as (x & Hx & _ & Hrin & _).
+    destruct (Hni x Hx) as (W & _). rewrite Forall_forall in W. specialize (W _ Hrin).
+    unfold wf, range_wf, mk in *; cbn. lia. }
+  pose proof (proj1 (check_no_overlap_iff _ Hwf) Hov) as Hd.
+  unfold pdisj in Hd. apply (proj1 (pairwise_map disj mk (ri_sam ri))) in Hd.
+  assert (Hd' : pairwise (fun e f => r_end (fst (snd e)) <= r_start (fst (snd f)) \/
+                                     r_end (fst (snd f)) <= r_start (fst (snd e))) (ri_sam ri))
+    by (eapply pairwise_impl; [|exact Hd]; intros x y H; exact H).
+  set (aw := desc_aw (c_desc c)) in *.
+  unfold C01_model_on, sam_decode. cbn [n_sam n_nis]. split.
+  - intros x r a Hx Hs Hrin Hra.
+    destruct (Hni x Hx) as (_ & Hl).
+    destruct (gen_sam_In c (ri_offset ri) x r Hx Hs Hrin Hl) as (nm & Hin). rewrite <- Hsam in Hin.
+    set (sr := emit_sam_rule aw (id_sub (cn_id x) (ri_offset ri), (r, nm))).
+    assert (Hm : sam_matches sr a = true) by (unfold sam_matches, sr; cbn; lia).
+    assert (Hf : In sr (filter (fun r0 => sam_matches r0 a) (map (emit_sam_rule aw) (ri_sam ri)))).
+    { apply filter_In. split; [apply in_map; exact Hin|exact Hm]. }
+    pose proof (decode_model_unique aw (ri_sam ri) a Hd') as Hle.
+    exists sr. split; [|split].
+    + destruct (filter _ (map (emit_sam_rule aw) (ri_sam ri))) as [|r1 [|r2 rs]]; cbn in Hle, Hf; [destruct Hf| |lia].
+      destruct Hf as [->|[]]. reflexivity.
+    + reflexivity.
+    + exists (emit_ni (c_desc c) (ri_offset ri) x). split; [apply in_map; exact Hx|]. split; reflexivity.
+  - intros a Hout. destruct (filter _ (map (emit_sam_rule aw) (ri_sam ri))) as [|sr rs] eqn:F; [reflexivity|exfalso].
+    assert (Hf : In sr (filter (fun r0 => sam_matches r0 a) (map (emit_sam_rule aw) (ri_sam ri)))) by (rewrite F; cbn; auto).
+    apply filter_In in Hf. destruct Hf as (Hin & Hm). apply in_map_iff in Hin. destruct Hin as (e & <- & Hein).
+    rewrite Hsam in Hein. destruct (gen_sam_inv _ _ _ Hein) as (x & Hx & Hs & Hrin & _).
+    apply (Hout x (fst (snd e)) Hx Hs Hrin).
+    destruct (emit_sam_rule_bounds aw e) as (B1 & B2 & _). unfold sam_matches in Hm. rewrite B1, B2 in Hm. lia.
+Qed.
+
+(* the address ranges of the map, independent of the destination encoding *)
+Definition sam_ranges (c : compiled) : list range :=
+  flat_map (fun x => firstn (length (ep_ranges (cn_ep x))) (cn_ranges x)) (rev (filter ni_sbr (c_nis c))).
+
+Lemma zip_map_fst {A B} (l : list A) (m : list B) : map fst (zip l m) = firstn (length m) l.
+Proof.
+  revert m. induction l as [|x xs IH]; intros [|y ys]; cbn; try reflexivity. f_equal. apply IH.
+Qed.
+
+Lemma map_enumerate_from {A B} (F : nat * A -> B) (G : A -> B) k l :
+  (forall i a, F (i, a) = G a) -> map F (enumerate_from k l) = map G l.
+Proof. intros H. revert k. induction l as [|a l IH]; intros k; cbn; [reflexivity|]. rewrite H, IH. reflexivity. Qed.
+
+Lemma gen_sam_ranges c off : map (fun e => fst (snd e)) (gen_sam c off) = sam_ranges c.
+Proof.
+  unfold gen_sam, sam_ranges. induction (rev (filter ni_sbr (c_nis c))) as [|x xs IH]; cbn [flat_map map]; [reflexivity|].
+  rewrite map_app, IH. f_equal. rewrite map_map. unfold enumerate.
+  rewrite <- (zip_map_fst (cn_ranges x) (ep_ranges (cn_ep x))).
+  apply map_enumerate_from. intros i [r s]. reflexivity.
+Qed.
+
+Definition ranges_disjoint (l : list range) : Prop :=
+  pairwise (fun r s => r_end r <= r_start s \/ r_end s <= r_start r) l.
+
+(* a description whose expanded ranges overlap is rejected: nothing is emitted *)
+Theorem overlap_rejected sp c :
+  Forall range_wf (sam_ranges c) -> ~ ranges_disjoint (sam_ranges c) -> exists e, gen_routing_info sp c = Err e.
+Proof.
+  intros Hw Hn. destruct (gen_routing_info sp c) as [ri|e] eqn:E; [exfalso|eauto].
+  destruct (gri_inv _ _ _ E) as (_ & _ & _ & _ & _ & Hsam & Hov).
+  set (mk := fun e : idv * (range * string) =>
+               {| dest := 0; st := r_start (fst (snd e)); en := r_end (fst (snd e)); sz := r_size (fst (snd e)) |}) in *.
+  assert (Hwf : Forall wf (map mk (ri_sam ri))).
+  { apply Forall_forall. intros q Hq. apply in_map_iff in Hq. destruct Hq as (e0 & <- & Hein).
+    assert (Hr : In (fst (snd e0)) (sam_ranges c)).
+    { rewrite <- (gen_sam_ranges c (ri_offset ri)), <- Hsam. apply in_map_iff. exists e0. auto. }
+    rewrite Forall_forall in Hw. specialize (Hw _ Hr). unfold wf, range_wf, mk in *; cbn. lia. }
+  pose proof (proj1 (check_no_overlap_iff _ Hwf) Hov) as Hd.
+  unfold pdisj in Hd. apply (proj1 (pairwise_map disj mk (ri_sam ri))) in Hd.
+  apply Hn. unfold ranges_disjoint. rewrite <- (gen_sam_ranges c (ri_offset ri)), <- Hsam.
+  apply pairwise_map. eapply pairwise_impl; [|exact Hd]. intros x y H. exact H.
+Qed.
+
+(* element (i, j) of a 2-D subordinate array owns slot i*cols + j of every declared range; element i of
+   a 1-D array owns slot i *)
+Theorem array_slot_2d d g ni x e m cols i j :
+  compile_ni d g ni = Ok x -> find_ep d (n_desc ni) = Some e -> ep_is_sbr e = true ->
+  ep_array e = Some [m; cols] -> n_arr ni = Some [i; j] ->
+  Forall2 (fun s r => exists r0 b, range_of_spec s = Ok r0 /\ r_base r0 = Some b /\
+                      r_start r = b + (i * cols + j) * r_size r0 /\ r_end r = b + (i * cols + j + 1) * r_size r0 /\
+                      r_size r = r_size r0) (ep_ranges e) (cn_ranges x).
+Proof.
+  unfold compile_ni. intros H He Hs Ha Hn. rewrite He in H. inv_bind H.
+  rewrite Ha, Hn, Hs in E2. inversion H; subst; cbn [cn_ranges]. clear H.
+  apply mapM_Forall2 in E1. apply mapM_Forall2 in E2.
+  revert a2 E2. induction E1 as [|s r0 ss rs Hsr _ IH]; intros a2 E2; inversion E2; subst; constructor.
+  - match goal with H : set_idx r0 _ = Ok ?y |- _ => rename H into Hset end.
+    unfold set_idx in Hset. destruct (r_base r0) as [b|] eqn:Eb; [|discriminate]. inversion Hset; subst; cbn.
+    exists r0, b. repeat split; auto; lia.
+  - apply IH. assumption.
+Qed.
+
+Theorem array_slot_1d d g ni x e m i :
+  compile_ni d g ni = Ok x -> find_ep d (n_desc ni) = Some e -> ep_is_sbr e = true ->
+  ep_array e = Some [m] -> n_arr ni = Some [i] ->
+  Forall2 (fun s r => exists r0 b, range_of_spec s = Ok r0 /\ r_base r0 = Some b /\
+                      r_start r = b + i * r_size r0 /\ r_end r = b + (i + 1) * r_size r0 /\
+                      r_size r = r_size r0) (ep_ranges e) (cn_ranges x).
+Proof.
+  unfold compile_ni. intros H He Hs Ha Hn. rewrite He in H. inv_bind H.
+  rewrite Ha, Hn, Hs in E2. inversion H; subst; cbn [cn_ranges]. clear H.
+  apply mapM_Forall2 in E1. apply mapM_Forall2 in E2.
+  revert a2 E2. induction E1 as [|s r0 ss rs Hsr _ IH]; intros a2 E2; inversion E2; subst; constructor.
+  - match goal with H : set_idx r0 _ = Ok ?y |- _ => rename H into Hset end.
+    unfold set_idx in Hset. destruct (r_base r0) as [b|] eqn:Eb; [|discriminate]. inversion Hset; subst; cbn.
+    exists r0, b. repeat split; auto; lia.
+  - apply IH. assumption.
 Qed.
